@@ -74,6 +74,7 @@ type sess struct {
 	recs            []recording
 	resumedHonestly bool
 	minted          bool // pre-shared through a claim id instead of negotiated
+	claimID         string
 	learnIdentity   bool
 }
 
@@ -170,7 +171,7 @@ func (w *world) establishMinted(variant int) string {
 		return fmt.Sprintf("C06 harness: cannot import the minted claim (%v, %q vs %q)", err, sid, m.SessionID())
 	}
 	ccfg.SessionID = sid
-	s := &sess{sid: sid, hasKey: true, alive: true, ccfg: ccfg, minted: true}
+	s := &sess{sid: sid, hasKey: true, alive: true, ccfg: ccfg, minted: true, claimID: m.ClaimID()}
 	e := findEntry(sid)
 	if e == nil || e.KeyInfo() == nil {
 		return "minting registered no keyed session on the minter's side"
@@ -237,6 +238,13 @@ func (w *world) establish(variant int) string {
 
 // honestResume: the real client resumes through its cache; both directions are recorded.
 func (w *world) honestResume(s *sess, n int) string {
+	if s.minted {
+		// a client that was fed a replayed reply has (rightly) dropped its copy of the session; a pre-shared
+		// session cannot be renegotiated, the application imports its claim id again
+		if _, ok := s.ccfg.SessionCache.Lookup(s.sid); !ok {
+			_, _ = security.ImportClaimSession(s.ccfg.SessionCache, s.claimID, security.ClaimSessionOptions{PeerAddr: s.ccfg.PeerName})
+		}
+	}
 	pa, pb := kit.NextPorts()
 	cc, sc := kit.NewBufPipe(pa, pb)
 	var so *srvOut
